@@ -200,9 +200,49 @@ fn case_parser(target: &str, rng: &mut Rng) -> Option<(String, String, String, u
     None
 }
 
+// Sanity test (bounded, NOT a proof) of the ASSUMED num-bigint contract used by the proofs: exact + - *, unary
+// minus, comparisons, and checked_div = None iff divisor 0, else the quotient truncated toward zero.
+fn bigint_contract() -> (u64, Option<String>) {
+    let mut n = 0u64;
+    let vals: Vec<i128> = vec![0, 1, -1, 2, -2, 3, -3, 7, -7, 10, -10, 99, -100, 1 << 40, -(1 << 40), (1 << 62) + 12345, -((1 << 62) + 12345)];
+    for &a in &vals {
+        for &b in &vals {
+            n += 1;
+            let (x, y) = (BigInt::from(a), BigInt::from(b));
+            let bad = |what: &str| Some(format!("{what} disagrees for a = {a}, b = {b}"));
+            if &x + &y != BigInt::from(a + b) { return (n, bad("+")); }
+            if &x - &y != BigInt::from(a - b) { return (n, bad("-")); }
+            if &x * &y != BigInt::from(a) * BigInt::from(b) { return (n, bad("*")); }
+            if -&x != BigInt::from(-a) { return (n, bad("neg")); }
+            if (x < y) != (a < b) || (x <= y) != (a <= b) || (x == y) != (a == b) || (x > y) != (a > b) || (x >= y) != (a >= b) { return (n, bad("comparison")); }
+            match x.checked_div(&y) {
+                None => if b != 0 { return (n, bad("checked_div None")); },
+                Some(q) => if b == 0 || q != BigInt::from(a / b) { return (n, bad("checked_div (truncation toward zero)")); },
+            }
+        }
+    }
+    // far beyond 64 bits: (k * d + r) / d == k for 0 <= r < d, and its negation truncates toward zero
+    let d = BigInt::from(10).pow(30) + BigInt::from(7);
+    let k = BigInt::from(10).pow(45) + BigInt::from(3);
+    let r = BigInt::from(10).pow(29);
+    let big = &k * &d + &r;
+    n += 2;
+    if big.checked_div(&d) != Some(k.clone()) { return (n, Some("big positive division".to_owned())); }
+    if (-&big).checked_div(&d) != Some(-k) { return (n, Some("big negative division does not truncate toward zero".to_owned())); }
+    (n, None)
+}
+
 fn main() {
     let args: Vec<String> = std::env::args().collect();
     let target = args.get(1).map_or("step", |s| s.as_str()).to_owned();
+    if target == "bigint_contract" {
+        let (n, bad) = bigint_contract();
+        match bad {
+            None => println!("{{\"target\":\"bigint_contract\",\"found\":false,\"tried\":{n},\"panics\":0}}"),
+            Some(m) => println!("{{\"target\":\"bigint_contract\",\"found\":true,\"tried\":{n},\"panics\":0,\"input\":\"{m}\",\"real\":\"num-bigint\",\"reference\":\"assumed contract\"}}"),
+        }
+        return;
+    }
     let seed: u64 = args.get(2).and_then(|s| s.parse().ok()).unwrap_or(1);
     let count: u64 = args.get(3).and_then(|s| s.parse().ok()).unwrap_or(200_000);
     let mut rng = Rng(seed.wrapping_mul(0x9E37_79B9_7F4A_7C15) | 1);
